@@ -4,6 +4,7 @@ package main
 
 import (
 	"fmt"
+	"go/token"
 
 	"golang.org/x/tools/go/ssa"
 )
@@ -42,28 +43,37 @@ func runC11CreatedOwned(c *Ctx, ent *entries, reach map[*ssa.Function]bool) {
 		return bc != nil && !bc.OnFile && (bc.Method == "Chown" || bc.Method == "Lchown" || bc.Method == "Remove" || bc.Method == "RemoveAll")
 	}
 	// unclosed returns reachable from the start blocks
+	// arrivals[r]: the predecessor blocks through which an unclosed path entered r's block (nil entry: the walk
+	// started inside the block)
+	arrivals := map[*ssa.Return][]*ssa.BasicBlock{}
 	unclosed := func(fn *ssa.Function, starts []*ssa.BasicBlock, fromInstr ssa.Instruction) []*ssa.Return {
 		var out []*ssa.Return
-		seen := map[*ssa.BasicBlock]bool{}
+		seenRet := map[*ssa.Return]bool{}
+		seen := map[edge]bool{}
 		type item struct {
-			b   *ssa.BasicBlock
-			idx int
+			b    *ssa.BasicBlock
+			idx  int
+			pred *ssa.BasicBlock
 		}
 		var stack []item
 		if fromInstr != nil {
-			stack = append(stack, item{fromInstr.Block(), instrIndex(fromInstr) + 1})
+			stack = append(stack, item{fromInstr.Block(), instrIndex(fromInstr) + 1, nil})
 		}
 		for _, s := range starts {
-			stack = append(stack, item{s, 0})
+			var pr *ssa.BasicBlock
+			if len(s.Preds) == 1 {
+				pr = s.Preds[0]
+			}
+			stack = append(stack, item{s, 0, pr})
 		}
 		for len(stack) > 0 {
 			it := stack[len(stack)-1]
 			stack = stack[:len(stack)-1]
 			if it.idx == 0 {
-				if seen[it.b] {
+				if seen[edge{it.pred, it.b}] {
 					continue
 				}
-				seen[it.b] = true
+				seen[edge{it.pred, it.b}] = true
 			}
 			closed := false
 			for i := it.idx; i < len(it.b.Instrs); i++ {
@@ -73,17 +83,60 @@ func runC11CreatedOwned(c *Ctx, ent *entries, reach map[*ssa.Function]bool) {
 					break
 				}
 				if r, ok := in.(*ssa.Return); ok {
-					out = append(out, r)
+					if !seenRet[r] {
+						seenRet[r] = true
+						out = append(out, r)
+						arrivals[r] = nil
+					}
+					arrivals[r] = append(arrivals[r], it.pred)
 				}
 			}
 			if closed {
 				continue
 			}
 			for _, s := range it.b.Succs {
-				stack = append(stack, item{s, 0})
+				stack = append(stack, item{s, 0, it.b})
 			}
 		}
 		return out
+	}
+	// errIsNilOn: the error r returns is nil (or the forwarded error of okCall) on every unclosed arrival
+	errIsNilOn := func(r *ssa.Return, okCall ssa.CallInstruction) bool {
+		okVal := func(v ssa.Value) bool {
+			if isNilConst(v) {
+				return true
+			}
+			if ex, isEx := v.(*ssa.Extract); isEx && okCall != nil && ex.Tuple == okCall.Value() {
+				return true
+			}
+			return false
+		}
+		last := retVal(r, len(r.Results)-1)
+		if okVal(last) {
+			return true
+		}
+		phi, isPhi := last.(*ssa.Phi)
+		if !isPhi || phi.Block() != r.Block() {
+			return false
+		}
+		for _, pr := range arrivals[r] {
+			if pr == nil {
+				return false
+			}
+			found := false
+			for i, bp := range phi.Block().Preds {
+				if bp == pr && i < len(phi.Edges) {
+					found = true
+					if !okVal(phi.Edges[i]) {
+						return false
+					}
+				}
+			}
+			if !found {
+				return false
+			}
+		}
+		return len(arrivals[r]) > 0
 	}
 	n := 0
 	for _, fn := range p.SrcFuncs {
@@ -126,6 +179,17 @@ func runC11CreatedOwned(c *Ctx, ent *entries, reach map[*ssa.Function]bool) {
 				var next []frame
 				for _, fr := range work {
 					rets := unclosed(fr.fn, fr.starts, fr.from)
+					// a deferred literal that chowns/removes whenever the named error result is non-nil
+					// closes every return that may carry an error
+					if covers := deferredCloseOnError(fr.fn, closes); covers != nil {
+						kept := rets[:0:0]
+						for _, r := range rets {
+							if !covers(r) {
+								kept = append(kept, r)
+							}
+						}
+						rets = kept
+					}
 					if len(rets) == 0 {
 						continue
 					}
@@ -139,12 +203,7 @@ func runC11CreatedOwned(c *Ctx, ent *entries, reach map[*ssa.Function]bool) {
 							okOnly = false
 							continue
 						}
-						last := retVal(r, len(r.Results)-1)
-						if isNilConst(last) {
-							continue
-						}
-						// `return callee(...)`: the error is the callee's, which is nil whenever the object is open
-						if ex, isEx := last.(*ssa.Extract); isEx && fr.okCall != nil && ex.Tuple == fr.okCall.Value() {
+						if errIsNilOn(r, fr.okCall) {
 							continue
 						}
 						okOnly = false
@@ -176,4 +235,98 @@ func runC11CreatedOwned(c *Ctx, ent *entries, reach map[*ssa.Function]bool) {
 	if n == 0 {
 		c.undecided(P, "created-owned", "creators", "", "no creating backend call found under CREATE/MKDIR/SYMLINK")
 	}
+}
+
+// deferredCloseOnError: fn defers a function literal in which a closing call (chown/remove) runs on the true
+// edge of `err != nil`, err being fn's named error result.  The returned predicate tells whether a return of fn
+// is covered: the defer was registered on every path to it and the error it returns is not the constant nil
+// (a return with a nil error is not closed by such a literal).
+func deferredCloseOnError(fn *ssa.Function, closes func(ssa.Instruction) bool) func(*ssa.Return) bool {
+	type reg struct{ d *ssa.Defer }
+	var regs []reg
+	for _, b := range fn.Blocks {
+		for _, in := range b.Instrs {
+			d, ok := in.(*ssa.Defer)
+			if !ok {
+				continue
+			}
+			mc, ok := d.Call.Value.(*ssa.MakeClosure)
+			if !ok {
+				continue
+			}
+			af, ok := mc.Fn.(*ssa.Function)
+			if !ok {
+				continue
+			}
+			good := false
+			for _, ab := range af.Blocks {
+				for _, ain := range ab.Instrs {
+					if !closes(ain) {
+						continue
+					}
+					for _, ifi := range controlEdges(ab) {
+						cond, neg := stripNot(ifi.Cond)
+						bo, isB := cond.(*ssa.BinOp)
+						if !isB || (bo.Op != token.NEQ && bo.Op != token.EQL) {
+							continue
+						}
+						var x ssa.Value
+						if isNilConst(bo.Y) {
+							x = bo.X
+						} else if isNilConst(bo.X) {
+							x = bo.Y
+						} else {
+							continue
+						}
+						bind, deref := freeBinding(af, x)
+						al, isAl := bind.(*ssa.Alloc)
+						if !deref || !isAl || !isNamedErrorResult(fn, al) {
+							continue
+						}
+						// which successor of the test leads to ab?
+						onTrue := ifi.Block().Succs[0] == ab || ifi.Block().Succs[0].Dominates(ab)
+						wantTrue := (bo.Op == token.NEQ) != neg
+						if onTrue == wantTrue {
+							good = true
+						}
+					}
+				}
+			}
+			if good {
+				regs = append(regs, reg{d})
+			}
+		}
+	}
+	if len(regs) == 0 {
+		return nil
+	}
+	return func(r *ssa.Return) bool {
+		if len(r.Results) == 0 {
+			return false
+		}
+		if isNilConst(retVal(r, len(r.Results)-1)) {
+			return false
+		}
+		for _, rg := range regs {
+			db, rb := rg.d.Block(), r.Block()
+			if db == rb || db.Dominates(rb) {
+				return true
+			}
+		}
+		return false
+	}
+}
+
+// isNamedErrorResult: al is the cell the last result of fn's returns is loaded from.
+func isNamedErrorResult(fn *ssa.Function, al *ssa.Alloc) bool {
+	for _, b := range fn.Blocks {
+		for _, in := range b.Instrs {
+			if r, ok := in.(*ssa.Return); ok && len(r.Results) > 0 {
+				if u, ok := r.Results[len(r.Results)-1].(*ssa.UnOp); ok && u.Op == token.MUL && u.X == ssa.Value(al) {
+					return true
+				}
+			}
+		}
+	}
+	return false
 }
